@@ -24,7 +24,7 @@ FIELDS = {"attr", "transform", "passthrough", "fallback", "_owner", "_owner_attr
 
 
 def _stub_lookup(interp, st, args, kwargs, frame, node):
-    a = [x for x in args if not isinstance(x, tuple)]
+    a = [x for x in args if not isinstance(x, tuple)] + [v for k_, v in kwargs.items() if k_ != "**"]   # positional or keyword call
     path = a[2] if len(a) > 2 else a[-1]
     whole = isinstance(path, Sym) and not any("[:]" in str(c) for c in path.tok)
     name = "target" if whole else "parent"
@@ -262,7 +262,7 @@ def _check_main(ctx, rep: Report):
     for row in r["rows"]:
         d = row["dec"]
         if row["kind"] == "ok" and not d.get("class_do_not_copy") and not row["stores"] \
-                and not (d.get("ismethod") and d.get("bound_to_self")) and any(k in d for k in ("attr_do_not_copy", "ismethod")):
+                and (row.get("entered") or any(k in d for k in ("attr_do_not_copy", "ismethod", "attr_spec_found"))):
             dropped.append(str({k: v for k, v in d.items() if not isinstance(k, str) or "pred" in k or "truthy" in k or k in ("ismethod", "attr_do_not_copy")}))
     rep.oblige("C18.COPY", "DeepCopyMethod.deepcopy", not dropped)
     for dd in dropped[:1]:
